@@ -11,7 +11,8 @@ import itertools
 
 from ..core import AnchorError, call_name, norm, short, own_nodes, kwarg, FUNC_TYPES
 from ..cfg import cfg_of
-from ..lib import calls_in, stmts_in, gate, must_pass, node_has, params, dominating_facts, xnorm, atom_key, decide
+from ..lib import calls_in, stmts_in, gate, must_pass, node_has, params, dominating_facts, xnorm, atom_key, decide, selection_of
+from ..summaries import check_summary
 
 CTX = 'jedi.inference.context'
 FIL = 'jedi.inference.filters'
@@ -139,20 +140,12 @@ def rule_d(repo, chk):
                         'ParserTreeFilter._filter applies AbstractFilter._filter (start_pos < until_position), _is_name_reachable '
                         '(parent scope == this scope) and _check_flows (latest first, stop at the first REACHABLE)')
     f = repo.find(FIL, 'ParserTreeFilter._filter')
-    txt = [norm(s) for s in f.body]
-    ok = any('super()._filter(names)' in t for t in txt) and any('self._is_name_reachable(n)' in t for t in txt) and any('self._check_flows(names)' in t for t in txt)
-    chk.ob('C03.d', ok, f, 'ParserTreeFilter._filter chains the position filter, the scope filter and the flow check')
+    check_summary(repo, chk, 'C03.d', FIL, 'ParserTreeFilter._filter')
     # MUST: no answer leaves _filter without having gone through each of the three steps
     for callee in ('_filter', '_is_name_reachable', '_check_flows'):
         w = must_pass(f, lambda n, callee=callee: node_has(n, lambda x: isinstance(x, ast.Call) and call_name(x) == callee))
         chk.ob('C03.d', w is None, f, 'every return of ParserTreeFilter._filter has passed %s()' % callee, w or '')
-    comp = [x for x in ast.walk(f) if isinstance(x, ast.comprehension)]
-    ok = len(comp) == 1 and len(comp[0].ifs) == 1 and norm(comp[0].ifs[0]) == 'self._is_name_reachable(n)'
-    chk.ob('C03.d', ok, f, 'a name is kept only if _is_name_reachable(n)')
-    a = repo.find(FIL, 'AbstractFilter._filter')
-    comps = [x for x in ast.walk(a) if isinstance(x, ast.comprehension) and x.ifs]
-    ok = len(comps) == 1 and norm(comps[0].ifs[0]) == 'n.start_pos < self._until_position'
-    chk.ob('C03.d', ok, a, 'with a position limit only names that START before it are kept (strictly)', str([norm(i) for c_ in comps for i in c_.ifs]))
+    check_summary(repo, chk, 'C03.d', FIL, 'AbstractFilter._filter')
     r = repo.find(FIL, 'ParserTreeFilter._is_name_reachable')
     rets = [x for x in stmts_in(r, ast.Return) if not (isinstance(x.value, ast.Constant))]
     ok = len(rets) == 1 and isinstance(rets[0].value, ast.Compare) and isinstance(rets[0].value.ops[0], ast.Eq) and \
@@ -217,8 +210,8 @@ def rule_f(repo, chk):
     gg = repo.find(CTX, 'ModuleContext.get_global_filter')
     chk.ob('C03.f', any(call_name(c) == 'GlobalNameFilter' for c in calls_in(gg)), gg, 'get_global_filter is a GlobalNameFilter')
     g = repo.find(FIL, 'GlobalNameFilter._filter')
-    ys = [y for y in own_nodes(g) if isinstance(y, ast.Yield)]
-    ok = len(ys) == 1 and gate(g, ys[0], lambda e, pol: pol and norm(e) == "name.parent.type == 'global_stmt'") is None
+    sel = selection_of(g)
+    ok = sel is not None and sel['iter'] == 'names' and sel['preds'] == ["_x.parent.type == 'global_stmt'"]
     chk.ob('C03.f', ok, g, 'GlobalNameFilter keeps exactly the names inside a global statement')
     mf = repo.cls(FIL, 'MergedFilter')
     get = mf.methods.get('get')
@@ -236,7 +229,7 @@ def rule_g(repo, chk):
         climbs to the enclosing scope exactly for the assignments of the atomic facts for which `want` says so"""
         c = cfg_of(fn)
         starts = [n for n in c.nodes if n.kind == 'test' and isinstance(n.ast, ast.Compare) and len(n.ast.ops) == 1
-                  and isinstance(n.ast.ops[0], ast.In) and xnorm(n.ast.left, fn) == subject + '.type'
+                  and isinstance(n.ast.ops[0], (ast.In, ast.NotIn)) and xnorm(n.ast.left, fn) == subject + '.type'
                   and isinstance(n.ast.comparators[0], (ast.Tuple, ast.List, ast.Set))
                   and any(isinstance(e, ast.Constant) and e.value == 'funcdef' for e in n.ast.comparators[0].elts)]
         if len(starts) != 1:
